@@ -193,6 +193,7 @@ static void do_op(hstep_t *s) {
 		break;
 	case H_CLOSE_PEER:
 		if ((d->kind != K_READ && d->kind != K_WRITE) || d->fdw < 0 || d->peer_closed) break;
+		if (d->kind == K_READ && d->is_sock && (s->arg & 1)) { shutdown(d->fdw, SHUT_WR); d->peer_closed = 1; break; } /* half close: RDHUP only */
 		close(d->fdw); d->fdw = -1; d->peer_closed = 1;
 		break;
 	default: break;
